@@ -186,9 +186,19 @@ def rule_sib(ctx):
             inst = '%s/%s' % (fr, short(fn.path))
             t = ctx.pv.eval(fn, f['e'], H.sym_env(fn), 0)
             if fr == 'sdl':
-                calls = [n_ for n_ in walk(f['e']) if n_['k'] == 'call' and any(p.endswith('find_deprecation') for p in H.callee_paths(n_))]
-                if calls and 'directives' in repr(ctx.pv.eval(fn, calls[0]['args'][0], H.sym_env(fn), 0)):
+                calls = [n_ for _f, n_ in H.deep_nodes(ctx, fn, f['e'], 1, None, True) if n_['k'] == 'call' and any(p.endswith('find_deprecation') for p in H.callee_paths(n_))]
+                dfields = TM.fields_in(ctx.pv.eval(fn, calls[0]['args'][0], H.sym_env(fn), 0)) if calls else set()
+                dirs = {x for x in dfields if x.endswith('.directives')}
+                # the directives of the very field definition whose name/type are stored (not those of the enclosing
+                # type / extension)
+                nm = [x for x in node['fields'] if x['name'] == 'name']
+                nfields = {x for x in TM.fields_in(ctx.pv.eval(fn, nm[0]['e'], H.sym_env(fn), 0)) if x.endswith('.name')} if nm else set()
+                same_owner = bool(dirs) and {x.split('.')[0] for x in dirs} == {x.split('.')[0] for x in nfields}
+                if calls and same_owner:
                     obs.append(ok('SIB-3', inst, 'deprecation = find_deprecation(field.directives)', node.get('sp', '')))
+                elif calls and dirs:
+                    obs.append(bad('SIB-3', inst, 'deprecation is read from %s, but the field stored is %s' % (sorted(dirs), sorted(nfields)), node.get('sp', ''),
+                                   'a field gets the deprecation of its enclosing type/extension and loses its own'))
                 else:
                     obs.append(bad('SIB-3', inst, 'deprecation is not read from the field\'s directives', node.get('sp', ''), 'deprecation lost for SDL schemas'))
             else:
@@ -242,7 +252,7 @@ def rule_sib(ctx):
     return obs
 
 
-@rule('EXTENSIONS', 'ROOTS-AGREE', 'ID-ORDER')
+@rule('EXTENSIONS', 'ROOTS-AGREE', 'ID-ORDER', 'INGEST-ALL')
 def rule_sdl_details(ctx):
     obs = []
     fn = ctx.fn('codegen', SDL_MOD + '::ingest_object_type_extension')
@@ -305,6 +315,65 @@ def rule_sdl_details(ctx):
                 obs.append(bad('EXTENSIONS', inst, 'extension %s are filtered (%s) before being added' % (fname, sorted(filt)), n.get('sp', ''), 'some extension members are lost'))
             else:
                 obs.append(ok('EXTENSIONS', inst, 'all extension %s are added to the extended object' % fname, n.get('sp', '')))
+    # INGEST-ALL: every definition of a kind is ingested — the stream handed to an `ingest_*` function is selected by
+    # kind only (a `filter_map` whose closure is a pure pattern match), never by a predicate on the definition's content
+    from .rules_c06 import _chain_methods
+    POSITIONAL = {'take', 'skip', 'step_by', 'take_while', 'skip_while', 'dedup', 'dedup_by', 'dedup_by_key', 'nth', 'last', 'rev', 'find', 'find_map', 'max_by_key', 'min_by_key'}
+    KIND_FIELDS = {'FullType.kind', 'FullType.name', 'FullTypeWrapper.full_type', 'SchemaTypes.full_type'}
+    n_ing = 0
+    for fr, mod in (('sdl', SDL_MOD), ('json', JSON_MOD)):
+        cf = ctx.fn('codegen', mod + '::convert')
+        if cf is None:
+            continue
+        for c_ in H.calls_in(cf):
+            lfs = [f_ for f_ in ctx.pv.local_fns(c_.get('callee')) if short(f_.path).split('::')[-1].startswith('ingest_')]
+            if not lfs:
+                continue
+            itn = H.iteration_of(cf, c_)
+            if itn is None:
+                continue
+            n_ing += 1
+            inst = '%s/%s' % (fr, short(lfs[0].path).split('::')[-1])
+            narrowing = []
+            meths = set()
+            stack = [(cf, itn[1], 0)]
+            while stack:
+                f_, e_, dp = stack.pop()
+                cur = e_
+                while cur is not None:
+                    if cur.get('k') == 'mcall':
+                        m_ = cur['method']
+                        meths.add(m_)
+                        if m_ in POSITIONAL:
+                            narrowing.append(m_)
+                        elif m_ in ('filter', 'filter_map') and cur['args']:
+                            # a selector may look at the kind of a definition only, never at its content
+                            ct = ctx.pv.apply_closure(ctx.pv.eval(f_, cur['args'][0], H.sym_env(f_), 0), [('unknown', 'definition')], 0)
+                            content = {x for x in TM.fields_in(ct) if x not in KIND_FIELDS}
+                            if 'FullType.name' in TM.fields_in(ct) and not any(g_[0] == 'global' and g_[1].endswith('DEFAULT_SCALARS') for g_ in P.subterms(ct)):
+                                content.add('FullType.name')
+                            if content:
+                                narrowing.append('%s on %s' % (m_, sorted(content)[:3]))
+                        for lf in ctx.pv.local_fns(cur.get('callee')):
+                            if dp < 2:
+                                stack.append((lf, lf.body.get('expr') if lf.body.get('k') == 'block' else lf.body, dp + 1))
+                        cur = cur['recv']
+                    elif cur.get('k') in ('wrap', 'ref'):
+                        cur = cur['e']
+                    elif cur.get('k') == 'call':
+                        for lf in ctx.pv.local_fns(cur.get('callee')):
+                            if dp < 2:
+                                stack.append((lf, lf.body.get('expr') if lf.body.get('k') == 'block' else lf.body, dp + 1))
+                        cur = None
+                    else:
+                        cur = None
+            if narrowing:
+                obs.append(bad('INGEST-ALL', inst, 'the definitions handed to %s are narrowed by %s' % (short(lfs[0].path).split('::')[-1], narrowing), c_.get('sp', ''),
+                               'some definitions of the schema are silently ignored: types/fields/implementors differ from the schema (and from its other rendering)'))
+            else:
+                obs.append(ok('INGEST-ALL', inst, 'every definition of the kind is ingested (stream selected by kind only: %s)' % sorted(meths), c_.get('sp', '')))
+    if n_ing < 6:
+        obs.append(bad('INGEST-ALL', 'floor', 'anchor-missing: only %d per-kind ingestion streams found in the two convert functions' % n_ing))
     # ROOTS-AGREE
     conv = ctx.fn('codegen', SDL_MOD + '::convert')
     jconv = ctx.fn('codegen', JSON_MOD + '::convert')
@@ -921,4 +990,61 @@ def rule_ident2(ctx):
                 anyel = next(iter(chains.values()))[0]
                 obs.append(bad('IDENT-2', inst, 'the same %s is turned into an identifier in different ways: %s' % (what, desc), ctx.site_loc(anyel['site']),
                                'definition and use disagree for names where the transforms differ: the generated module does not compile'))
+    return obs
+
+
+@rule('ENUM-VALUES')
+def rule_enum_values(ctx):
+    """every value the schema lists for an enum is stored, in order: the value list is built by an un-narrowed walk over
+    the schema's values and never edited afterwards (no retain / dedup / remove / truncate / sort on StoredEnum.variants)"""
+    obs = []
+    NARROW = {'filter', 'filter_map', 'take', 'skip', 'step_by', 'take_while', 'skip_while', 'dedup', 'dedup_by', 'dedup_by_key', 'nth', 'last', 'rev', 'find'}
+    per = {'sdl': 0, 'json': 0}
+    for fn, node in ctx.prog.aggregates_norm.get('graphql_client_codegen::schema::StoredEnum', []):
+        fr = front_of(fn)
+        if fr is None:
+            continue
+        for f in node['fields']:
+            if f['name'] != 'variants':
+                continue
+            per[fr] += 1
+            inst = '%s/%s' % (fr, short(fn.path))
+            meths = set()
+            for n_ in H.walk_through_locals(fn, f['e']):
+                if n_['k'] == 'mcall':
+                    # iterator / collection adaptors only (`Option::take`, `mem::take` of a name are not narrowing)
+                    if any(('Iterator::' in p_ or 'iter::' in p_ or 'vec::Vec' in p_ or 'slice::' in p_) for p_ in H.callee_paths(n_)):
+                        meths.add(n_['method'])
+            t = ctx.pv.eval(fn, f['e'], H.sym_env(fn), 0)
+            src = {x for x in TM.fields_in(t) if 'values' in x.lower() or 'enum_values' in x.lower()}
+            narrowing = sorted(meths & NARROW)
+            if narrowing:
+                obs.append(bad('ENUM-VALUES', inst, 'the value list is narrowed by %s while it is read' % narrowing, node.get('sp', ''),
+                               'a schema value without a variant deserializes to Other(..) instead of its own variant'))
+            elif not src:
+                obs.append(undecided('ENUM-VALUES', inst, 'source of the value list not recognised (%s)' % sorted(TM.fields_in(t))[:4], node.get('sp', '')))
+            else:
+                obs.append(ok('ENUM-VALUES', inst, 'all values of %s, in order' % sorted(src), node.get('sp', '')))
+    for fr, c in per.items():
+        if c < 1:
+            obs.append(bad('ENUM-VALUES', fr + '/floor', 'anchor-missing: the %s front end builds no StoredEnum' % fr))
+    edits = []
+    for sf in ctx.crate('codegen').all_fns():
+        if sf.from_macro or not norm_path(sf.path).startswith('graphql_client_codegen::schema'):
+            continue
+        for n_ in walk(sf.body):
+            if n_['k'] == 'mcall' and n_['recv'].get('aty', '').startswith('&mut'):
+                r = n_['recv']
+                while r.get('k') in ('ref', 'wrap', 'unary'):
+                    r = r.get('e')
+                if r.get('k') == 'field' and r['name'] == 'variants' and r.get('adt', '').endswith('StoredEnum'):
+                    edits.append((sf, n_))
+            elif n_['k'] == 'assign' and n_['l'].get('k') == 'field' and n_['l']['name'] == 'variants' and n_['l'].get('adt', '').endswith('StoredEnum'):
+                edits.append((sf, {'method': '=', 'sp': n_.get('sp', '')}))
+    if edits:
+        for sf, n_ in edits:
+            obs.append(bad('ENUM-VALUES', 'edited/' + short(sf.path), 'the stored value list of an enum is edited (%s) after it was read from the schema' % n_['method'], n_.get('sp', ''),
+                           'values are dropped or reordered: they no longer map to their own variant'))
+    else:
+        obs.append(ok('ENUM-VALUES', 'edited/none', 'no schema-layer function edits StoredEnum.variants', ''))
     return obs
